@@ -1406,8 +1406,10 @@ impl World for WorldD {
                 let base = sc.split('_').next().unwrap();
                 // any release of that era: the version string only selects which conversions run
                 let scen = match base {
-                    "v1" => format!("v1:{}", rng.pick(&["0.11.1", "0.11.1", "0.12.0-alpha1"])),
-                    "v2" => format!("v2:{}", rng.pick(&["0.13.0", "0.12.0", "0.12.1", "0.13.0"])),
+                    // (0.10.0 is older than the oldest version the contract agrees to migrate from, 9.9.9 newer than itself:
+                    // both must be refused and leave everything as it was)
+                    "v1" => format!("v1:{}", rng.pick(&["0.11.1", "0.11.1", "0.12.0-alpha1", "0.11.1", "0.10.0"])),
+                    "v2" => format!("v2:{}", rng.pick(&["0.13.0", "0.12.0", "0.12.1", "0.13.0", "0.12.0", "9.9.9"])),
                     o => o.to_string(),
                 };
                 Step::Migrate { target: "ics20".into(), msg, scenario: Some(scen) }
